@@ -249,11 +249,14 @@ def complex_add(document, cls, tags):
 
             member.set('maxOccurs', val)
 
-        if a.default is not None:
-            member.set('default', _prot.to_unicode(v, a.default))
+        # <xs:any> is a wildcard, not an element declaration: Xml Schema allows
+        # neither ``default`` nor ``nillable`` on it.
+        if a.schema_tag == XSD('element'):
+            if a.default is not None:
+                member.set('default', _prot.to_unicode(v, a.default))
 
-        if bool(a.nillable) != False: # False is the xml schema default
-            member.set('nillable', 'true')
+            if bool(a.nillable) != False: # False is the xml schema default
+                member.set('nillable', 'true')
 
         v_doc_text = v.get_documentation()
         if v_doc_text:
